@@ -76,7 +76,7 @@ TEXT = {
         "engine": "vmux (SIM + THR)",
         "technique": "runtime monitor over executions with scripted RNGs (forced id 0 / live ids / simultaneous identical choices) and a scripted raw peer (Reset of the first k Connects, Connect with id 0 / in-use id / the id of an unanswered bind request)",
         "design_ref": "DESIGN.md §4 C07, appendix A",
-        "level_text": "Per request: Connect frames on the tap are counted and matched to the outcome (success iff acknowledged, FlowIdRejected after exactly R resets, never more than R attempts, never id 0 or a live id); a Connect carrying id 0, a live id or the id of a pending bind request is answered by exactly one Reset, nothing is delivered to the application and the existing flow / the bind request keeps working; target bytes and initial credit are compared on both sides, the latter also black-box. Exploration.",
+        "level_text": "Per request: Connect frames on the tap are counted and matched to the outcome (success iff acknowledged, FlowIdRejected after exactly R resets, never more than R attempts, never id 0 or a live id); streams acknowledged before the tunnel ended are still handed to an application that accepts afterwards, with their data; a Connect carrying id 0, a live id or the id of a pending bind request is answered by exactly one Reset, nothing is delivered to the application and the existing flow / the bind request keeps working; target bytes and initial credit are compared on both sides, the latter also black-box. Exploration.",
         "level_note": "Trusted: reference codec on the tap; collisions are forced through the scripted RNG rather than awaited from chance.",
     },
     "C08": {
@@ -90,14 +90,14 @@ TEXT = {
         "engine": "vmux (SIM + THR)",
         "technique": "offline history checker for datagrams (identity, at-most-once, order, loss licence from buffer occupancy) with concurrent stream monitors",
         "design_ref": "DESIGN.md §4 C11, appendix A",
-        "level_text": "Every received datagram is matched to the send it came from; losses are bounded by arrivals at a full buffer computed from the event order, exactly: the harness drains both datagram queues at the final quiescent point, so reached = received + licensed losses; over-long hosts must be refused without a trace on the wire; the connection task must stay alive and concurrent streams uncorrupted and unblocked. Exploration.",
+        "level_text": "Every received datagram is matched to the send it came from; losses are bounded by arrivals at a full buffer computed from the event order, exactly: the harness drains both datagram queues at the final quiescent point, so reached = received + licensed losses; receivers await, pause, start late, are absent, or abandon get_datagram() calls (cancellation); over-long hosts must be refused without a trace on the wire; the connection task must stay alive and concurrent streams uncorrupted and unblocked. Exploration.",
         "level_note": "The occupancy model is an upper bound of the real buffer occupancy, so the loss bound is sound (never stricter than the statement).",
     },
     "C15": {
         "engine": "vmux (SIM)",
         "technique": "offline history checker matching each bind result to the peer application's decision for that very request; scripted-RNG id re-use",
         "design_ref": "DESIGN.md §4 C15, appendix A",
-        "level_text": "Each request's result is compared with the logged decision (accept/reject/drop/never/binds disabled), the fields and flow id shown to the peer with the request, and ids are re-issued immediately after resolution and at quiescent points; bind hosts of 0-39 bytes; requests issued while or after the connection ends must resolve (Closed or false); the connection task must not end on its own. Exploration.",
+        "level_text": "Each request's result is compared with the logged decision (accept/reject/drop/never/binds disabled), the fields and flow id shown to the peer with the request, and ids are re-issued immediately after resolution and at quiescent points; bind hosts of 0-39 bytes; requests issued while or after the connection ends must resolve (Closed or false); a raw peer sends Bind requests with ids of its own choice (0 included) that the application accepts, rejects or drops: exactly one Finish / Reset each; the connection task must not end on its own. Exploration.",
         "level_note": "Requests are matched by unique port; the responder logs its decision before replying.",
     },
     "C16": {
